@@ -1,6 +1,6 @@
 (* C06 -- Protobuf wire format conforms to the protobuf encoding spec (interop).
    Spec.v is written from the encoding guide, independently of pilota's code.  Only statements. *)
-From PVPb Require Import Wire Codec Msg Spec Proofs.SpecP Proofs.MsgRtP Proofs.SpecDecP Proofs.SpecMsgP Proofs.UnknownP Conform Proofs.EngineP Proofs.ConformP.
+From PVPb Require Import Wire Codec Msg Spec Proofs.SpecP Proofs.MsgRtP Proofs.SpecDecP Proofs.SpecMsgP Proofs.UnknownP Conform Proofs.EngineP Proofs.ConformP Chunks Proofs.ChunksP.
 Open Scope Z_scope.
 
 (* The link between "declared sint32" and "uses the sint32 codec": for all 16 declared scalar types
@@ -112,3 +112,20 @@ Print Assumptions C06_in_records.
    singular field twice, packed + unpacked chunks mixed, an unknown field, a oneof set twice, a map entry with the value
    before the key and an embedded message split in two; it conforms, differs from the canonical encoding and decodes
    to the value. *)
+
+(* chunk independence: the decoders are generic over `Buf`, and a Buf may hand out its bytes in several chunks
+   (Buf::chain, VecDeque<u8>, ropes).  Only decode_varint looks at the chunk structure (it dispatches on the first chunk);
+   everything else reads through Buf's chunk-agnostic get_u8 / get_*_le / advance / copy_to_bytes / take.  Chunks.v models
+   decode_varint on a chunk list -- first chunk for the dispatch and the unrolled slice decoder, get_u8 across chunks for
+   the byte-at-a-time loop, whose bound `min(10, buf.remaining())` is REGENERATED from the source (dsl_bound: a bound by
+   the first chunk, or none, changes the model and breaks this proof).  For EVERY way of cutting ANY byte string into
+   chunks (empty chunks included) the answer is the contiguous decoder's: same value and same remaining bytes, or the
+   same "invalid varint"; never a panic.  Keys, length prefixes, varint scalars, packed elements, length delimiters are
+   all read through this function. *)
+Theorem C06_chunk_independent : forall cs bs, concat cs = bs -> cres_flat (cdecode_varint cs) = decode_varint_b bs.
+Proof. exact chunk_independent. Qed.
+Print Assumptions C06_chunk_independent.
+(* non-vacuity: Proofs/ChunksP.v chunked_nonvacuous (300 cut between its bytes, 2^63 over ten one-byte chunks),
+   chunk_bound_would_reject (the same loop bounded by the first chunk rejects AC | 02).  The message-level decoders over
+   non-contiguous buffers are exercised on every run (pv-gen-pb / pv-harness-pb: every decode entry point over two-chunk
+   cuts, Buf::chain, small pieces and a wrapped VecDeque<u8>, answers compared with the contiguous one). *)
